@@ -3,6 +3,7 @@
 package zzverif
 
 import (
+	stdjson "encoding/json"
 	"net/url"
 	"regexp"
 	"time"
@@ -13,3 +14,5 @@ const timeRFC3339 = time.RFC3339
 func timeParse(layout, s string) (time.Time, error) { return time.Parse(layout, s) }
 func urlParse(s string) (*url.URL, error)          { return url.ParseRequestURI(s) }
 func reMatch(p string, b []byte) bool              { return regexp.MustCompile(p).Match(b) }
+
+func jsonMarshal(x interface{}) ([]byte, error) { return stdjson.Marshal(x) }
